@@ -405,13 +405,16 @@ std::optional<int64_t> CgroupContext::getMemoryProtection(Error* err) const {
     return std::nullopt;
   }
 
-  std::unordered_set<CgroupPath> sibling_cgroups;
   std::vector<OomdContext::ConstCgroupContextRef> siblings;
   if (auto children = parent_ctx->get().children(err)) {
     for (const auto& name : *children) {
-      sibling_cgroups.insert(parent_cgroup.getChild(name));
+      // Look each sibling up by its name. Names are not patterns: systemd
+      // escapes produce backslashes (foo\x2dbar.service) and nothing stops a
+      // cgroup from being called "a*".
+      if (auto sibling = ctx_.addToCacheAndGet(parent_cgroup.getChild(name))) {
+        siblings.push_back(*sibling);
+      }
     }
-    siblings = ctx_.addToCacheAndGet(sibling_cgroups);
   } else {
     return std::nullopt;
   }
